@@ -133,6 +133,9 @@ package par
 //@   at call (*sync.Mutex).Unlock#2: requires forall K {at(w.todo,K)} :: lo(w.todo) <= K && K < hi(w.todo) && K != lo(w.todo) + gPick ==> at(w.todo,K) == gSnapArr[K]
 //@   at call (*sync.Mutex).Unlock#2: requires lo(w.todo) + gPick < hi(w.todo) ==> at(w.todo, lo(w.todo) + gPick) == gSnapArr[lo(w.todo) + gSnapLen - 1]
 //@   loop 1: invariant myHeld == 0 && myR + myF == 1 && myR >= 0 && myF >= 0 && (myR == 1 ==> sum4(gS[w], gK[w], gX[w], gF[w]) <= gSpawned[w] - 1) && gSpawned[w] <= w.running && (myF == 1 ==> gF[w] >= 1)
+// (loop 2's first invariant: the global invariant of the other shared structure of this package,
+// instantiated at w, which this goroutine holds locked: nobody else changes it meanwhile)
+//@   loop 2: invariant fld(cacheEntry, done)[w] == 0 ==> gCalls[w] == 0
 //@   loop 2: invariant myHeld == w && gHeld[w] && myR == 1 && myF == 0 && sum4(gS[w], gK[w], gX[w], gF[w]) <= gSpawned[w] - 1 && gSpawned[w] <= w.running && w.waiting == gS[w] + gK[w] + gX[w] && (gS[w] > 0 ==> len(w.todo) <= gK[w] + 1)
 //@   ensures myHeld == 0
 
